@@ -214,11 +214,6 @@ def g_parts(parts):
     return "[" + "; ".join(out) + "]"
 
 
-def has_oversize(parts, maxlen):
-    text = text_of(parts)
-    return any(len(seg.encode("utf-8")) > maxlen for seg in text.splitlines(True) if True) if len(text) > maxlen else False
-
-
 def split_incl_bytes_over(parts, maxlen):
     """class predicate of the known finding: some read_line piece (split after each \\n) is longer than maxlen bytes"""
     text = text_of(parts)
@@ -304,7 +299,7 @@ def check(run):
         return
     rng = run.rng
     cases = [c for c in CORPUS] + oversize_corpus(maxlen)
-    n = 700 if run.tier == "quick" else 12000
+    n = 700 if run.tier == "quick" else 6000
     for _ in range(n):
         cases.append(gen_file(rng))
     run_cases(run, binpath, cases, maxlen)
